@@ -338,7 +338,9 @@ def gen_cases(rng, scale=1):
 
 
 CFG_EXTRAS = [{'type': 'yolo'}, {'class': 3}, {'opts': {'a-b': 1}}, {'model': {'x.y': [1, 2]}}, {'9x': 1}, {'schemaURL': 'u'}, {'labels': {'first label': 'a'}}, {'plain': 1},
-              {'Threshold': 5, 'threshold': 6}, {'nested': {'deep': {'k': None}}}]
+              {'Threshold': 5, 'threshold': 6}, {'nested': {'deep': {'k': None}}},
+              # list-valued options whose NAMES look like histogram companions (…_counts / …_buckets) but whose values are whatever the user configured
+              {'class_counts': ['person', 'car']}, {'stats': {'counts': [1, None, 3]}}, {'size_buckets': [0, 10, 'inf+']}, {'hist_counts': [1, 2.5]}, {'tags': ['a', 1, None]}]
 HB_KEYS = ['frames_processed', 'frames.processed', 'x-y', '9lives', 'type', 'schemaURL', 'ok', 'Fps', 'a b', 'class', '_hidden', 'det_count_histogram']
 
 
